@@ -99,8 +99,13 @@ class Grammar(qc.QGrammar):
                      file_len=([0, 1, 100, 700, 2000] if tiny else [0, 1, 100, 5000, 70000])[(b >> 5) % 5] if shape >= 4 else 0, tiny=tiny)
             if d["lw"] and d["hw"] and d["lw"] > d["hw"]:
                 d["lw"] = d["hw"]
+            conv = shape <= 3 and (b2 >> 7) & 1 == 1
+            if conv:
+                # a bare descriptor driven through the convenience API dispatch_read / dispatch_write (no channel object, no water marks, no close)
+                # (the peer's total stays below the default pipe / socket buffer: a convenience read returns what is there, so nobody is obliged to drain the descriptor)
+                d.update(type=2, lw=0, hw=0, interval=0, tiny=False, pipesz=0)
             P.chans[c] = d
-            P.features.add("chan:%s" % ["pipe-read", "socket-read", "pipe-write", "socket-write", "file-read", "file-read"][shape])
+            P.features.add("chan:%s%s" % ("convenience-" if conv else "", ["pipe-read", "socket-read", "pipe-write", "socket-write", "file-read", "file-read"][shape]))
             # peer script
             ps = []
             seed = h[18 + c]
@@ -109,7 +114,7 @@ class Grammar(qc.QGrammar):
                 for i in range(nsteps):
                     x = (seed * 31 + i * 17 + b) & 0xff
                     if d["dir"] == 0:
-                        ps.append((0, CHUNKS[x % 5] if d["tiny"] else (CHUNKS[x % 8] if big or CHUNKS[x % 8] <= 20000 else 4096)))
+                        ps.append((0, CHUNKS[x % 5] if d["tiny"] else CHUNKS[x % 6] if d["type"] == 2 else (CHUNKS[x % 8] if big or CHUNKS[x % 8] <= 20000 else 4096)))
                     else:
                         ps.append((2, CHUNKS[x % 8]))
                     if x % 3 == 0:
@@ -126,8 +131,8 @@ class Grammar(qc.QGrammar):
                 self.emit_io(P, t, self._pick(table, tup[0]), tup[1], tup[2], tup[3], big)
         # every stream read channel ends with a read to EOF, so that whatever the peer writes is consumed and the peer can finish
         for c, d in P.chans.items():
-            if d["dir"] == 0 and d["type"] == 0 and c not in P.closed:
-                P.op(c % P.nthreads, "read", a=c, b=0, c=-1, chan=c, thread=c % P.nthreads, hw=P.hw_now[c], tail=True)
+            if d["dir"] == 0 and d["type"] != 1 and c not in P.closed:
+                P.op(c % P.nthreads, "convread" if d["type"] == 2 else "read", a=c, b=0, c=-1, chan=c, thread=c % P.nthreads, hw=P.hw_now[c], tail=True)
         return P
 
     def emit_io(self, P, ctx, kind, a, b, c, big):
@@ -137,6 +142,17 @@ class Grammar(qc.QGrammar):
             return None
         ch = mine[a % len(mine)]
         d = P.chans[ch]
+        if d["type"] == 2:
+            if kind == "sleep":
+                return P.op(ctx, "sleep", a=[20, 100, 500, 2000][a % 4])
+            if kind != "io":
+                return None
+            if d["dir"] == 0:
+                return P.op(ctx, "convread", a=ch, b=0, c=READ_LENS[b % 8], chan=ch, thread=ctx, hw=0)
+            ln = WRITE_LENS[b % 8]
+            if not big and ln > 20000:
+                ln = 20000
+            return P.op(ctx, "convwrite", a=ch, b=0, c=ln, d=1 + c % 8, e=(c >> 3) & 0xff, chan=ch, thread=ctx)
         if kind == "io":
             if d["dir"] == 0:
                 ln = READ_LENS[b % 8]
@@ -183,11 +199,13 @@ def io_verdicts(prog, hist):
     ev = hist.ev
     kind, opv, idxv, valv = ev["kind"], ev["op"], ev["idx"], ev["val"]
     out = []
-    stats = {"multi_delivery": False, "peer_transfers": 0}
+    stats = {"multi_delivery": False, "peer_transfers": 0, "conv_bytes": 0}
+    base = {"convread": "read", "convwrite": "write"}
     call, ret, start, end, starts, ends = hist.index()
     names = {30: "a handler invocation came after the one that had done set", 31: "delivered bytes are not the next bytes of the stream (or of the file at that offset)",
              32: "more data reported unwritten than was submitted", 33: "the data reported unwritten is not the tail of the submitted data",
-             34: "the bytes that reached the descriptor are not the prefix the operation reports as written, in submission order", 35: "the peer received a different number of bytes than the operations report as written"}
+             34: "the bytes that reached the descriptor are not the prefix the operation reports as written, in submission order", 35: "the peer received a different number of bytes than the operations report as written",
+             36: "the bytes left in the descriptor after the convenience reads are not the continuation of the stream"}
     for i in hist.of_kind(K["CHKFAIL"]):
         out.append(Verdict("content check %d failed at op %d: %s (value %d)" % (int(idxv[i]), int(opv[i]), names.get(int(idxv[i]), "?"), int(valv[i])), dict(kind="io-content", code=int(idxv[i]))))
     deliveries = {}
@@ -212,9 +230,18 @@ def io_verdicts(prog, hist):
         cleanup_pos.setdefault(int(opv[i]), []).append(int(i))
     done_pos = {}
     for o in prog.order:
-        if o.kind not in ("read", "write") or o.id not in call:
+        okind = base.get(o.kind, o.kind)
+        if okind not in ("read", "write") or o.id not in call:
             continue
         dl = deliveries.get(o.id, [])
+        if o.kind in base:
+            # convenience API: "the handler is enqueued ... when the operation has completed or an error occurs" - one invocation per call
+            if len(dl) > 1 or (hist.hdr["finished"] and len(dl) != 1):
+                out.append(Verdict("handler of %s op %d was invoked %d times" % (o.kind, o.id, len(dl)), dict(kind="io-conv-handler-count")))
+            if dl and okind == "read":
+                stats["conv_bytes"] += dl[0][2]
+            if dl and okind == "write":
+                stats["conv_bytes"] += o.c - dl[0][2]
         d = prog.chans[o.a]
         dones = [x for x in dl if x[3]]
         if len(dones) > 1:
@@ -235,7 +262,7 @@ def io_verdicts(prog, hist):
         closed_before = [c for c in closes.get(o.a, []) if c[1] < call[o.id]]
         if o.c == 0:
             continue          # zero-length operations complete at once with done (read from _dispatch_operation_create): outside the ordering / close clauses
-        if o.kind == "read":
+        if okind == "read":
             total = sum(x[2] for x in dl)
             if o.c >= 0 and total > o.c:
                 out.append(Verdict("read op %d asked for %d bytes and was given %d" % (o.id, o.c, total), dict(kind="io-read-too-much")))
@@ -293,8 +320,15 @@ def io_verdicts(prog, hist):
                 out.append(Verdict("cleanup handler of channel %d ran %d times" % (-20 - int(opv[i]), int(valv[i])), dict(kind="io-cleanup-count")))
         # every byte the peer wrote was delivered exactly once (stream read channels that were read to EOF and never closed by the script)
         for c, d in prog.chans.items():
-            if d["dir"] == 0 and d["type"] == 0 and not closes.get(c) and any(o.meta.get("tail") or (o.kind == "read" and o.a == c and o.c == -1) for o in prog.order):
-                got = sum(sum(x[2] for x in deliveries.get(o.id, [])) for o in prog.order if o.kind == "read" and o.a == c)
+            if d["dir"] == 0 and d["type"] != 1 and not closes.get(c) and (d["type"] == 2 or any(o.meta.get("tail") or (o.kind == "read" and o.a == c and o.c == -1) for o in prog.order)):
+                got = sum(sum(x[2] for x in deliveries.get(o.id, [])) for o in prog.order if o.kind in ("read", "convread") and o.a == c)
+                if d["type"] == 2:
+                    # a convenience read with data completes on EAGAIN (io.c, "Convenience read with available data completes on EAGAIN"): the calls need not
+                    # reach EOF, but what they were given plus what the harness then found left in the descriptor is what the peer wrote
+                    rest = [int(valv[i]) for i in hist.of_kind(K["VAL"]) if int(opv[i]) == -20 - c and int(idxv[i]) == 14]
+                    if not rest:
+                        continue
+                    got += rest[0]
                 pw = [int(valv[i]) for i in hist.of_kind(K["VAL"]) if int(opv[i]) == -20 - c and int(idxv[i]) == 13]
                 if pw and got != pw[0]:
                     out.append(Verdict("channel %d: the peer wrote %d bytes and closed, the read operations were given %d in total" % (c, pw[0], got), dict(kind="io-bytes-lost-or-duplicated")))
@@ -328,8 +362,9 @@ class Check(sc.SCheck):
             "unwritten remainder being the tail of the submitted data. History oracles: per operation at most the requested length, every delivery <= the high-water mark "
             "set before it by the same thread, handler never re-entered, done exactly once and last; stream operations complete in submission order (observed through the data: the bytes given to successive operations are successive parts of the stream); "
             "nothing submitted after a barrier is delivered before the barrier block returned; operations scheduled after close returned complete with ECANCELED; the cleanup handler "
-            "runs once, after every handler; a channel read to EOF delivers exactly the bytes the peer wrote; completion via the stuck witness. Non-trivial: some "
-            "operation was delivered in >= 2 pieces and the peer side needed >= 2 transfers; distinct = distinct program texts.")
+            "runs once, after every handler; a channel read to EOF delivers exactly the bytes the peer wrote; completion via the stuck witness. "
+            "A channel may instead be a bare descriptor driven through the convenience API dispatch_read / dispatch_write (same content checks, exactly one handler invocation per call). Non-trivial: some "
+            "operation was delivered in >= 2 pieces (or a convenience call moved bytes) and the peer side needed >= 2 transfers; distinct = distinct program texts.")
     assumptions = ["water marks are judged only when set in program order by the submitting thread", "chunkings are those the peer scripts, 4 KiB buffers and the injected short counts / EINTR induce"]
     G = Grammar()
 
@@ -372,7 +407,9 @@ class Check(sc.SCheck):
         inj = [int(hist.ev["val"][i]) for i in hist.of_kind(K["VAL"]) if int(hist.ev["op"][i]) == -1 and int(hist.ev["idx"][i]) in (20, 21)]
         if sum(inj) > 0:
             classes.append("short-count-or-EINTR-injected")
-        return (stats["multi_delivery"] and stats["peer_transfers"] >= 2), classes
+        if stats["conv_bytes"]:
+            classes.append("convenience-op-moved-bytes")
+        return ((stats["multi_delivery"] or stats["conv_bytes"] > 0) and stats["peer_transfers"] >= 2), classes
 
 
 CHECK = Check()
